@@ -5,6 +5,7 @@ package fw
 
 import (
 	"crypto/sha256"
+	"encoding/base64"
 	"encoding/hex"
 	"encoding/json"
 	"fmt"
@@ -12,6 +13,7 @@ import (
 	"sort"
 	"strings"
 	"time"
+	"unicode/utf8"
 )
 
 type Tier string
@@ -317,4 +319,30 @@ func keys(m map[string]bool) []string {
 	}
 	sort.Strings(out)
 	return out
+}
+
+// Text is a string that survives the trip through a replay file even when it is not valid UTF-8 (a JSON string would
+// silently replace the offending bytes): valid text is written as a JSON string, anything else as {"base64": "..."}.
+type Text string
+
+func (t Text) MarshalJSON() ([]byte, error) {
+	if utf8.ValidString(string(t)) {
+		return json.Marshal(string(t))
+	}
+	return json.Marshal(map[string]string{"base64": base64.StdEncoding.EncodeToString([]byte(t))})
+}
+
+func (t *Text) UnmarshalJSON(b []byte) error {
+	var s string
+	if err := json.Unmarshal(b, &s); err == nil {
+		*t = Text(s)
+		return nil
+	}
+	var m map[string]string
+	if err := json.Unmarshal(b, &m); err != nil {
+		return err
+	}
+	raw, err := base64.StdEncoding.DecodeString(m["base64"])
+	*t = Text(raw)
+	return err
 }
